@@ -4,19 +4,108 @@ set_option linter.unusedVariables false
 namespace SJ.GoSet
 open SJ SJ.GoSem SJ.Generated SJ.GoIter
 
+theorem ofInt_eq_ofInt64 (v : Int) : UInt64.ofInt v = ofInt64 v := rfl
+
+theorem ofInt_natCast (n : Nat) : UInt64.ofInt (n : Int) = UInt64.ofNat n := by
+  apply UInt64.toNat_inj.mp
+  simp [UInt64.ofInt]
+  omega
+
+theorem sub_ofNat (c : UInt64) (j : Nat) (h : j ≤ c.toNat) : c - UInt64.ofNat j = UInt64.ofNat (c.toNat - j) := by
+  apply UInt64.toNat_inj.mp
+  have := c.toNat_lt
+  simp [UInt64.toNat_sub]
+  omega
+
+theorem set2_ok (pj : PJ) (i : Iter) (w0 w1 : UInt64) (h0 : 1 ≤ i.off) (h : i.off < pj.tape.size) :
+    Iter.set2 pj i w0 w1 = .ok { pj with tape := (pj.tape.set (i.off - 1) w0 (by omega)).set i.off w1 (by simp; omega) } := by
+  have h1 : i.off - 1 < pj.tape.size := by omega
+  have h2 : ¬ i.off = 0 := by omega
+  simp [Iter.set2, wr, h, h1, h2]
+
+theorem set2_panic (pj : PJ) (i : Iter) (w0 w1 : UInt64) (h : i.off = 0 ∨ pj.tape.size ≤ i.off) :
+    Iter.set2 pj i w0 w1 = .panic := by
+  by_cases h0 : i.off = 0
+  · simp [Iter.set2, h0]
+  · have h2 : ¬ i.off < pj.tape.size := by omega
+    by_cases h1 : i.off - 1 < pj.tape.size <;> simp [Iter.set2, wr, h0, h1, h2]
+
+
 attribute [local simp] exec exec1 execCases evalE evalEs Env.get Env.set isOneOf binop convert ofE copyFields bindParams
   iterFields runFun tblLookup
 
-#check @UInt64.ofInt
-#print UInt64.ofInt
-#check @UInt64.ofInt_natCast
-example (v : Int) : UInt64.ofInt v = ofInt64 v := by
-  simp [ofInt64, UInt64.ofInt]
+def View1 (pj : PJ) (i : Iter) : Prop := i.off ≤ i.lim ∨ pj.tape.size < i.off
+def View2 (pj : PJ) (i : Iter) : Prop := i.off < i.lim ∨ pj.tape.size ≤ i.off
 
-theorem t1 (pj : PJ) (i : Iter) (bits : UInt64) (fuel : Nat) (hl : i.lim ≤ pj.tape.size) :
-   runFun goFuns goIter_SetFloat fuel { env := envOf "i" i ++ [("i.tape.Strings.B", .bytes pj.strings), ("v", .u64 bits)], tape := pj.tape } = .panic := by
-  simp only [goIter_SetFloat, envOf]
+def SimSet (pj : PJ) (i : Iter) (o : Out) (r : Res (PJ × Iter)) : Prop :=
+  match r with
+  | .ok (pj', i') => ∃ s, o = .ret s [.bool false] ∧ s.tape = pj'.tape ∧
+      s.env.get "i.tape.Strings.B" = some (.bytes pj'.strings) ∧ iterAt s.env "i" = some i' ∧ pj'.msg = pj.msg
+  | .error _ => ∃ s, o = .ret s [.bool true] ∧ s.tape = pj.tape ∧
+      s.env.get "i.tape.Strings.B" = some (.bytes pj.strings) ∧ iterAt s.env "i" = some i
+  | .panic => o = .panic
+  | .diverge => False
+
+-- case analysis shared by the two-word setters
+set_option hygiene false in
+macro "two_word" ht:ident hl:ident hv:ident : tactic => `(tactic| (
+    simp only [$ht:ident, if_true]
+    by_cases h0 : i.off = 0
+    · simp [set2_panic _ _ _ _ (Or.inl h0), h0]
+    · by_cases h1 : i.off < i.lim
+      · have h2 : i.off < pj.tape.size := by omega
+        have h3 : i.off - 1 < pj.tape.size := by omega
+        have h4 : (1:Int) ≤ i.off ∧ (i.off:Int) - 1 < i.lim ∧ i.off - 1 < pj.tape.size := by omega
+        rw [set2_ok _ _ _ _ (by omega) h2]
+        simp [h1, h2, h3, h4, mkWord, iterAt, tagFloat, tagInteger, tagUint, tagString, tagNull, tagNop, wSTRINGBUFBIT, ofInt_natCast]
+      · have h2 : pj.tape.size ≤ i.off := by omega
+        have h5 : ¬ ((i.off:Int) < i.lim) := by omega
+        rw [set2_panic _ _ _ _ (Or.inr h2)]
+        by_cases h4 : (1:Int) ≤ i.off ∧ (i.off:Int) - 1 < i.lim ∧ i.off - 1 < pj.tape.size
+        · simp [h4, h5]
+        · simp [h4]))
+
+theorem setFloat_sim (pj : PJ) (i : Iter) (bits : UInt64) (fuel : Nat) (hl : i.lim ≤ pj.tape.size) (hv : View2 pj i) :
+   SimSet pj i (runFun goFuns goIter_SetFloat fuel { env := envOf "i" i ++ [("i.tape.Strings.B", .bytes pj.strings), ("v", .u64 bits)], tape := pj.tape })
+     (i.setFloat pj bits) := by
+  have hc : swSetFloat = [[[100, 108, 117, 34]]] := rfl
+  simp only [goIter_SetFloat, envOf, Iter.setFloat, hc, caseOf, caseOfSw, inCase, SimSet, View2] at *
   simp
-  trace_state
-  sorry
+  simp only [← UInt8.toNat_inj, UInt8.reduceToNat, @eq_comm Nat _ i.t.toNat]
+  by_cases ht : (i.t.toNat = 100 ∨ i.t.toNat = 108 ∨ i.t.toNat = 117 ∨ i.t.toNat = 34)
+  · two_word ht hl hv
+  · simp [ht, iterAt]
+
+theorem setInt_sim (pj : PJ) (i : Iter) (v : Int) (fuel : Nat) (hl : i.lim ≤ pj.tape.size) (hv : View2 pj i) :
+   SimSet pj i (runFun goFuns goIter_SetInt fuel { env := envOf "i" i ++ [("i.tape.Strings.B", .bytes pj.strings), ("v", .int v)], tape := pj.tape })
+     (i.setInt pj v) := by
+  have hc : swSetInt = [[[100, 108, 117, 34]]] := rfl
+  simp only [goIter_SetInt, envOf, Iter.setInt, hc, caseOf, caseOfSw, inCase, SimSet, View2] at *
+  simp
+  simp only [← UInt8.toNat_inj, UInt8.reduceToNat, @eq_comm Nat _ i.t.toNat, ofInt_eq_ofInt64]
+  by_cases ht : (i.t.toNat = 100 ∨ i.t.toNat = 108 ∨ i.t.toNat = 117 ∨ i.t.toNat = 34)
+  · two_word ht hl hv
+  · simp [ht, iterAt]
+
+theorem setUInt_sim (pj : PJ) (i : Iter) (v : UInt64) (fuel : Nat) (hl : i.lim ≤ pj.tape.size) (hv : View2 pj i) :
+   SimSet pj i (runFun goFuns goIter_SetUInt fuel { env := envOf "i" i ++ [("i.tape.Strings.B", .bytes pj.strings), ("v", .u64 v)], tape := pj.tape })
+     (i.setUInt pj v) := by
+  have hc : swSetUInt = [[[34, 100, 108, 117]]] := rfl
+  simp only [goIter_SetUInt, envOf, Iter.setUInt, hc, caseOf, caseOfSw, inCase, SimSet, View2] at *
+  simp
+  simp only [← UInt8.toNat_inj, UInt8.reduceToNat, @eq_comm Nat _ i.t.toNat]
+  by_cases ht : (i.t.toNat = 34 ∨ i.t.toNat = 100 ∨ i.t.toNat = 108 ∨ i.t.toNat = 117)
+  · two_word ht hl hv
+  · simp [ht, iterAt]
+
+theorem setStringBytes_sim (pj : PJ) (i : Iter) (v : Bytes) (fuel : Nat) (hl : i.lim ≤ pj.tape.size) (hv : View2 pj i) :
+   SimSet pj i (runFun goFuns goIter_SetStringBytes fuel { env := envOf "i" i ++ [("i.tape.Strings.B", .bytes pj.strings), ("v", .bytes v)], tape := pj.tape })
+     (i.setStringBytes pj v) := by
+  have hc : swSetStringBytes = [[[34, 100, 108, 117]]] := rfl
+  simp only [goIter_SetStringBytes, envOf, Iter.setStringBytes, hc, caseOf, caseOfSw, inCase, SimSet, View2] at *
+  simp
+  simp only [← UInt8.toNat_inj, UInt8.reduceToNat, @eq_comm Nat _ i.t.toNat, ofInt_natCast]
+  by_cases ht : (i.t.toNat = 34 ∨ i.t.toNat = 100 ∨ i.t.toNat = 108 ∨ i.t.toNat = 117)
+  · two_word ht hl hv
+  · simp [ht, iterAt]
 end SJ.GoSet
